@@ -736,3 +736,34 @@ VDRIVE_OP(lawsagree)
 	res["suspicious"] = suspicious;
 	return res;
 }
+
+// ---------------------------------------------------------------- step-level binding of the Layer-2 model InclUp
+// {"op":"incluptrace","A","B"}: runs the upward selection with the guarded step hook installed and returns the recorded
+// events (Start with the operands AS THE ALGORITHM SEES THEM - trimmed, renumbered -, Pick, Rule, Verdict).
+#include "util/verif_hook.hh"
+namespace {
+std::vector<std::string>* g_stepSink = nullptr;
+void stepSink(const std::string& s) { if (g_stepSink) { g_stepSink->push_back(s); } }
+}
+
+VDRIVE_OP(incluptrace)
+{
+	Alpha alpha;
+	if (c.contains("syms")) { alpha.RegisterAll(c["syms"]); }
+	TA a = MakeTA(c.at("A"), alpha);
+	TA b = MakeTA(c.at("B"), alpha);
+	std::vector<std::string> events;
+	g_stepSink = &events;
+	VATA::Util::Verif::Sink() = stepSink;
+	json v;
+	try { v = runIncl(a, b, SELS[0]); }
+	catch (...) { VATA::Util::Verif::Sink() = nullptr; g_stepSink = nullptr; throw; }
+	VATA::Util::Verif::Sink() = nullptr;
+	g_stepSink = nullptr;
+	json res;
+	json evs = json::array();
+	for (const std::string& s : events) { evs.push_back(json::parse(s)); }
+	res["events"] = evs;
+	res["v"] = v;
+	return res;
+}
